@@ -9,7 +9,7 @@
    correspondence of the pipeline model with the implementation plus the oracle run of tools/c03.py. *)
 From Coq Require Import String NArith List Bool.
 From RC Require Import lib.Result lib.Bytes model.Layout model.ChkIo model.RichCodec model.RichIo
-  proofs.C03_proofs proofs.C10_proofs.
+  proofs.C03_proofs proofs.C10_proofs proofs.C03_refuted.
 Import ListNotations.
 Local Open Scope N_scope.
 
@@ -43,3 +43,18 @@ Theorem C03_unmodelled_sections_identical_partial :
     load d = Ok r -> nth_error d i = Some s -> unmodelled s = true -> save wd r = Ok d' -> nth_error d' i = Some s.
 Proof. intros d r wd d' i s Hl Hn Hu Hs. exact (unmodelled_section_survives d r r wd d' i s Hl Hn Hu eq_refl Hs). Qed.
 Print Assumptions C03_unmodelled_sections_identical_partial.
+
+(* The idempotence clause, stated at full strength above as C03_full_statement, is FALSE of the pipeline model (and, the
+   model being tied to the implementation byte for byte, of the code): recorded finding uprp-slot-dropped-fields-only.
+   The witness is replayed on the implementation by tools/c03.py on every run. *)
+Theorem C03_idempotence_refuted :
+  exists bs b1 b2, load_save bs = Ok b1 /\ load_save b1 = Ok b2 /\ b1 <> b2.
+Proof. exact idempotence_refuted. Qed.
+Print Assumptions C03_idempotence_refuted.
+
+Theorem C03_full_statement_is_false : ~ C03_full_statement.
+Proof.
+  intros H. destruct idempotence_refuted as (bs & b1 & b2 & H1 & H2 & Hne).
+  specialize (H bs b1 H1). rewrite H in H2. inversion H2. contradiction.
+Qed.
+Print Assumptions C03_full_statement_is_false.
